@@ -13,7 +13,8 @@ M_EXTFW = '_ZN4FIX811MessageBase27extract_element_fixed_widthEPKcjjPcS3_j'
 M_DECODE = '_ZN4FIX811MessageBase6decodeERKNSt7__cxx1112basic_stringIcSt11char_traitsIcESaIcEEEjjb'
 M_DGROUP = '_ZN4FIX811MessageBase12decode_groupEPNS_9GroupBaseEtRKNSt7__cxx1112basic_stringIcSt11char_traitsIcESaIcEEEjj'
 GINIT = '_GLOBAL__sub_I_l3_world.cpp'
-ROOTS = [GINIT, 'vf_ctx_ctor', 'vf_new_msg', 'vf_header', 'vf_trailer', 'vf_mk_int', 'vf_mk_str', 'vf_mk_char', 'vf_mk_bool', 'vf_mk_ts', 'vf_mk_float', 'vf_add',
+M_FNCALL = '_ZNKSt8functionIFPN4FIX87MessageEbEEclEb'
+ROOTS = [GINIT, 'vf_ctx_ctor', 'vf_fn_which', 'vf_fn_check', 'vf_fn_make', 'vf_new_msg', 'vf_header', 'vf_trailer', 'vf_mk_int', 'vf_mk_str', 'vf_mk_char', 'vf_mk_bool', 'vf_mk_ts', 'vf_mk_float', 'vf_add',
          'vf_find_group', 'vf_group_new', 'vf_group_add', 'vf_group_size', 'vf_group_el', 'vf_encode', 'vf_mkstring', 'vf_string_data', 'vf_factory', 'vf_clone',
          'vf_copy_legal', 'vf_move_legal', 'vf_ctx', 'vf_pos_count', 'vf_pos_nth', 'vf_pos_key', 'vf_nfields', 'vf_get_field', 'vf_have', 'vf_tag', 'vf_val_int',
          'vf_val_char', 'vf_val_bool', 'vf_val_strlen', 'vf_val_str', 'vf_val_ticks', 'vf_val_float', 'vf_msgtype']
@@ -31,6 +32,8 @@ STUBS = ['F8MetaCntx::F8MetaCntx := shim vf_ctx_ctor: the same member initialisa
          'BaseField::encode(char*) call sites := the real BaseField::encode; for fields whose text length depends on a symbolic value (ints, floats) the real function runs into a scratch buffer, '
          'its result is ASSERTED to equal the length class of the shape and the bytes are copied (a checked lemma that keeps output offsets constant for the symbolic executor)',
          'MessageBase::extract_element(const char*, unsigned, char*, char*, unsigned, unsigned) call sites := the real tokenizer run into scratch buffers; result, terminators ASSERTED to match the token the encoder wrote at that offset, then copied (checked lemma, same purpose)',
+         'std::function<Message*(bool)>::operator() (Minst::_do, F8MetaCntx::_mk_hdr/_mk_trl) := identifies the std::function object (message-table slot or context member), ASSERTS that the function pointer stored in it is '
+         'the generated instantiator Minst::_gen::_make<T> of that slot and calls that instantiator directly (checked lemma; std::function keeps its target in a byte buffer)',
          'strlen := ISO C strlen; on the value buffer the tokenizer just filled its result is ASSERTED to be that value\'s length (checked lemma)',
          'gmtime_r := contract (proleptic Gregorian UTC): returns the calendar fields of the harness instant whose second count it is asked for; any other request fails the check',
          'std::string out-of-line members, operator new (never fails), _Rb_tree_insert_and_rebalance/increment/decrement (unbalanced BST, same in-order sequence), exception runtime: models/cxx.c; std::ios_base::Init, __cxa_atexit: no-ops (models/l3_env.c)',
@@ -59,7 +62,7 @@ def world(ctx, wrap=True):
     ll = ctx.link_ir([shim, msg], 'l3all')
     opts = ['--typed-alloc', '--ptrcmp']
     for w in (M_BFENC, M_EXT, M_EXTFW): opts += ['--wrap', w]
-    info = ctx.translate(ll, ROOTS, 'l3w.c', stubs={M_CTX: 'st_ctx_ctor', 'strlen': 'st_strlen'}, stubfiles=['common.stubs'], models=['cxx.c', 'stubs.c', 'l3_env.c'], opts=opts,
+    info = ctx.translate(ll, ROOTS, 'l3w.c', stubs={M_CTX: 'st_ctx_ctor', 'strlen': 'st_strlen', M_FNCALL: 'st_fn_msg_call'}, stubfiles=['common.stubs'], models=['cxx.c', 'stubs.c', 'l3_env.c'], opts=opts,
                          provided=['gmtime_r'])
     ctx._l3 = info; ctx._l3gen = g
     return info
